@@ -207,10 +207,16 @@ class Ctx(object):
 # ----------------------------------------------------------------------------- findings / evidence
 
 def load_findings():
+    out = []
     path = os.path.join(VERIF, 'known_findings.json')
-    if not os.path.exists(path):
-        return []
-    return json.load(open(path))
+    if os.path.exists(path):
+        out.extend(json.load(open(path)))
+    d = os.path.join(VERIF, 'findings.d')
+    if os.path.isdir(d):
+        for fn in sorted(os.listdir(d)):
+            if fn.endswith('.json'):
+                out.extend(json.load(open(os.path.join(d, fn))))
+    return out
 
 
 def finish(ctx, level_obligations, checker_cmd):
